@@ -121,7 +121,8 @@ Definition hb_clone (t : hb) : M' hb :=
   if hB t =? 1 then ret hb_new
   else
     tick_alloc ;;;
-    on_unwind (clone_elems (map_to_list (hel t)).*2 []) tick_free ;;;
+    l <- take_order_or (hel t) ;;
+    on_unwind (clone_elems l []) tick_free ;;;
     ret t.
 
 (* ================================================================ griddle RawTable *)
@@ -360,15 +361,26 @@ Definition rt_iter : M' (list (bool * elem)) :=
   end.
 
 (* and_carry_with_hasher: hash, clone, insert each element the cached iterator would yield *)
+(* clone: the table is a local of the caller; a panic drops it with all its clones *)
 Fixpoint and_carry (t : hb) (l : list elem) : M' hb :=
   match l with
   | [] => ret t
   | e :: l =>
-      tick_hash ;;;
-      cb ;;;
-      on_unwind cb (drop_key (ekid e)) ;;;
-      t' <- hb_insert t e ;;
+      t' <- on_unwind (tick_hash ;;; cb ;;; on_unwind cb (drop_key (ekid e)) ;;; hb_insert t e)
+                      (drop_elems (map_to_list (hel t)).*2 ;;; hb_free t) ;;
       and_carry t' l
+  end.
+(* clone_from: the same on the destination's own main table, in place: a panic leaves what was
+   inserted so far *)
+Fixpoint and_carry_here (l : list elem) : M' unit :=
+  match l with
+  | [] => ret tt
+  | e :: l =>
+      t <- getm ;;
+      tick_hash ;;; cb ;;; on_unwind cb (drop_key (ekid e)) ;;;
+      t' <- hb_insert t e ;;
+      setm t' ;;;
+      and_carry_here l
   end.
 
 Definition cursor_view (o : option old) : M' (list elem) :=
@@ -391,8 +403,10 @@ Definition rt_clone : M' rt :=
 Definition hb_clone_from_with_hasher (t s : hb) : M' hb :=
   if negb (hB t =? hB s) && (hlen s <=? bcap (hB t)) then
     t1 <- hb_clear t ;;
-    let els := (map_to_list (hel s)).*2 in
-    (* clone, then hash each element; on a panic the destination is cleared again *)
+    setm t1 ;;;
+    els <- take_order_or (hel s) ;;
+    (* clone, then hash each element; on a panic the scope guard's clear() finds items == 0 and
+       returns at once: the destination stays as cleared, the clones placed so far leak *)
     iterM (fun e => cb ;;; on_unwind cb (drop_key (ekid e)) ;;; on_unwind tick_hash (drop_elem e)) els ;;;
     (if hgl t1 <? hlen s then unwind (PDebugAssert 3647)
      else ret (HB (hB t1) (hgl t1 - hlen s) (hn s) (hel s)))
@@ -402,7 +416,9 @@ Definition hb_clone_from_with_hasher (t s : hb) : M' hb :=
     else
       drop_elems (map_to_list (hel t)).*2 ;;;
       when (negb (hB t =? hB s)) (tick_alloc ;;; hb_free t) ;;;
-      clone_elems (map_to_list (hel s)).*2 [] ;;;
+      els <- take_order_or (hel s) ;;
+      (* a panic drops the clones made so far; the outer scope guard then runs clear_no_drop *)
+      on_unwind (clone_elems els []) (setm (hb_empty (hB s))) ;;;
       ret s.
 
 (* clone_from_with_hasher(source) on the destination *)
@@ -414,7 +430,6 @@ Definition rt_clone_from (src : rt) : M' unit :=
   t' <- hb_clone_from_with_hasher t (main src) ;;
   setm t' ;;;
   l <- cursor_view (lo src) ;;
-  t'' <- and_carry t' l ;;
-  setm t''.
+  and_carry_here l.
 
 End Raw.
